@@ -22,42 +22,55 @@ Domains (from reading the serialisers, see DESIGN.md C34):
 """
 import re
 
-from hypothesis import strategies as st
+import runner
+from dmgen import canon, pick, rbytes, small, surrogate_text, text, uni_text
 
 PID = "C34"
 LEVEL = "exploration"
-TECHNIQUE = "Hypothesis pair-list generation per view; round trip + independent reference decoders for write-back"
-RULE = ("6 views x {assign, writeback}; pair lists of <=5 pairs from pieces biased to separators/quotes/escapes/"
+TECHNIQUE = "seeded-PRNG pair-list generation per view; round trip + independent reference decoders for write-back"
+RULE = ("6 views x {assign, writeback (not for path)}; pair lists of <=5 pairs from pieces biased to separators/quotes/escapes/"
         "CR/LF/non-ASCII/surrogate-escaped bytes; non-trivial = some string contains a separator, quote, backslash, "
         "percent, plus, CR/LF, non-ASCII or is empty; distinct by (view, mode, payload)")
 ASSUMPTIONS = ["reference decoders written from WHATWG urlencoded / RFC 6265 / RFC 2046+7578 define 'meaning'",
                "assigning view *objects* (req.query = other.query) is not exercised, only pair lists"]
 LEVEL_TEXT = "randomised search per view with explicit round-trip and reference-decoder oracles"
 LEVEL_NOTE = "trusts the reference decoders in this file"
-QUICK_N, THOROUGH_N = 56_000, 5_000_000
+QUICK_N, THOROUGH_N = 800_000, 6_000_000
 
-# ------------------------------------------------------------------ strings
+# ------------------------------------------------------------------ generator (seeded PRNG, see lib/dmgen.py)
 _SEP = ["&", "=", ";", "+", "%", "%41", "%zz", " ", '"', "\\", ",", "#", "?", "/", ":", "'", "\t", "\r\n", "\n", "\r",
-        "\xe9", "中", "\U0001f600", "\x00", "\x7f", "\xa0", " ", "--", "a=b", "a&b", "\\\"", "\"\""]
-_piece = st.one_of(
-    st.text(alphabet="abcxyz019-._~", max_size=5),
-    st.sampled_from(_SEP), st.sampled_from(_SEP),
-    st.text(alphabet=st.characters(blacklist_categories=("Cs",)), max_size=3),
-    st.binary(min_size=1, max_size=3).map(lambda b: b.decode("utf-8", "surrogateescape")),
-)
-
-
-def _canon(s):
-    try:
-        return s.encode("utf-8", "surrogateescape").decode("utf-8", "surrogateescape")
-    except UnicodeEncodeError:
-        return s
-
-
-_text = st.lists(_piece, max_size=4).map("".join).map(_canon)
-_text1 = st.lists(_piece, min_size=1, max_size=4).map("".join).map(_canon)
-
+        "\xe9", "\u4e2d", "\U0001f600", "\x00", "\x7f", "\xa0", " ", "--", "a=b", "a&b", "\\\"", "\"\""]
 _NOCTL = {ord("\r"): "_", ord("\n"): "_", 0: "_"}
+_DATES = ["Thu, 01 Jan 2026 00:00:00 GMT", "Wed, 21 Oct 2015 07:28:00 GMT", "Sun, 06 Nov 1994 08:49:37 GMT"]
+_MP_NAMES = [b"k", b"field1", b"file", b"a b", b"x;y", b"name", b"k=v", b"\xc3\xa9", b"a'b", b"[]"]
+_MP_VALS = [b"", b"v", b"value1", b"line1\r\nline2", b"a\nb", b"a\rb", b"x\r\n", b"\r\n", b"--", b"--XX", b"v--XXv",
+            b"--XX--", b"\r\n--XY", b'"q"', b"\x00\xff", b"Content-Disposition: form-data; name=\"z\""]
+_BOUNDARIES = ["XX", "XX", "----WebKitFormBoundary7MA4YWxkTrZu0gW", "-----------------------------735323031399963166993862150",
+               "a.b_c-d", "0"]
+_BOUNDARIES_Q = ["a+b", "a'b", "----=_Part+1'2"]   # bchars that are also token chars (valid unquoted parameter)
+_BASE_PATHS = ["/", "/a/b", "/a;p", "/a?old=1", "/a/b?x=1&x=2#frag", "/a#frag", "/a%2Fb/c%20d;p=1?q", "//a", "/a/?"]
+_CTYPES = [None, "text/plain", "application/x-www-form-urlencoded", "application/x-www-form-urlencoded; charset=utf-8",
+           "application/json"]
+_OLD_BODIES = [None, b"", b"a=1&b=2", b"a&b", b"x", b"\xff\xfe", b"a=1&b"]
+_CODINGS = [None, None, None, "gzip"]
+_WB_ATTRS = [["Path", "/"], ["path", "/a/b"], ["Expires", _DATES[0]], ["expires", _DATES[1]], ["Domain", "example.com"],
+             ["Max-Age", "3600"], ["Secure", None], ["HttpOnly", None], ["SameSite", "Lax"], ["Partitioned", None]]
+_COOKIE_OCTETS = "abc019-._~!#$%&'()*+/:<=>?@[]^`{|}"
+
+
+def _g_piece(rnd):
+    r = rnd.randrange(5)
+    if r == 0:
+        return text(rnd, "abcxyz019-._~", 0, 5)
+    if r in (1, 2):
+        return pick(rnd, _SEP)
+    if r == 3:
+        return uni_text(rnd, 0, 3)
+    return surrogate_text(rnd, 1, 3)
+
+
+def _g_text(rnd, lo=0):
+    return canon("".join(_g_piece(rnd) for _ in range(max(lo, small(rnd, 4)))))
 
 
 def _cookie_val(s):
@@ -71,89 +84,87 @@ def _cookie_name(s, setcookie=False):
     return s.lstrip()
 
 
-def _pairs(k, v, n=5):
-    return st.lists(st.tuples(k, v), max_size=n)
+def _g_qpairs(rnd):
+    p = [[_g_text(rnd), _g_text(rnd)] for _ in range(small(rnd, 5))]
+    return [x for x in p if x[0] != "" or x[1] != ""]
 
 
-def _nonempty_pair(p):
-    return [list(x) for x in p if x[0] != "" or x[1] not in ("", None)]
+def _g_cpairs(rnd):
+    p = [[_cookie_name(_g_text(rnd)), _cookie_val(_g_text(rnd))] for _ in range(small(rnd, 5))]
+    return [x for x in p if x[0] != "" or x[1] != ""]
 
 
-_qpairs = _pairs(_text, _text).map(_nonempty_pair)
-_cpairs = _pairs(_text.map(_cookie_name), _text.map(_cookie_val)).map(_nonempty_pair)
-
-_DATES = ["Thu, 01 Jan 2026 00:00:00 GMT", "Wed, 21 Oct 2015 07:28:00 GMT", "Sun, 06 Nov 1994 08:49:37 GMT"]
-_attr = st.one_of(
-    st.tuples(st.sampled_from(["Path", "path"]), st.sampled_from(["/", "/a/b", "/a b", "", "/%41", "/x=y"])),
-    st.tuples(st.sampled_from(["Expires", "expires"]), st.sampled_from(_DATES)),
-    st.tuples(st.sampled_from(["Domain", "domain"]), st.sampled_from(["example.com", ".example.com", ""])),
-    st.tuples(st.sampled_from(["Max-Age", "max-age"]), st.sampled_from(["0", "3600", "-1"])),
-    st.tuples(st.sampled_from(["Secure", "HttpOnly", "secure", "Partitioned"]), st.none()),
-    st.tuples(st.sampled_from(["SameSite"]), st.sampled_from(["Lax", "Strict", "None"])),
-    st.tuples(st.sampled_from(["Comment", "x-ext"]), _text.map(_cookie_val)),
-)
-_setcookie = st.tuples(
-    _text.map(lambda s: _cookie_name(s, True)),
-    st.one_of(st.none(), _text.map(_cookie_val), _text.map(_cookie_val)),
-    st.lists(_attr, max_size=4),
-    st.booleans(),  # pass attrs as CookieAttrs (True) or as a plain list
-).map(lambda t: [t[0] or ("n" if t[1] in (None, "") else ""), t[1], [list(a) for a in t[2]], t[3]])
-
-_mp_name = st.one_of(
-    st.sampled_from([b"k", b"field1", b"file", b"a b", b"x;y", b"name", b"k=v", b"\xc3\xa9", b"a'b", b"[]"]),
-    st.binary(min_size=1, max_size=6).map(lambda b: b.replace(b'"', b"'").replace(b"\r", b"_").replace(b"\n", b"_")),
-)
-_mp_val = st.one_of(
-    st.sampled_from([b"", b"v", b"value1", b"line1\r\nline2", b"a\nb", b"a\rb", b"x\r\n", b"\r\n", b"--", b"--XX", b"v--XXv",
-                     b"--XX--", b"\r\n--XY", b'"q"', b"\x00\xff", b"Content-Disposition: form-data; name=\"z\""]),
-    st.binary(max_size=12),
-)
-_mp_pairs = st.lists(st.tuples(_mp_name, _mp_val), max_size=4).map(lambda l: [list(x) for x in l])
-_boundary = st.sampled_from(["XX", "XX", "----WebKitFormBoundary7MA4YWxkTrZu0gW", "-----------------------------735323031399963166993862150",
-                             "a.b_c-d", "0"])
-_boundary_q = st.sampled_from(["a+b", "a'b", "----=_Part+1'2"])   # bchars that are also token chars (valid unquoted parameter)
-
-_base_path = st.sampled_from(["/", "/a/b", "/a;p", "/a?old=1", "/a/b?x=1&x=2#frag", "/a#frag", "/a%2Fb/c%20d;p=1?q", "//a", "/a/?"])
-_ctype = st.sampled_from([None, "text/plain", "application/x-www-form-urlencoded", "application/x-www-form-urlencoded; charset=utf-8",
-                          "application/json"])
-_old_body = st.sampled_from([None, b"", b"a=1&b=2", b"a&b", b"x", b"\xff\xfe", b"a=1&b"])
-_coding = st.sampled_from([None, None, None, "gzip"])
+def _g_attr(rnd):
+    r = rnd.randrange(7)
+    if r == 0:
+        return [pick(rnd, ["Path", "path"]), pick(rnd, ["/", "/a/b", "/a b", "", "/%41", "/x=y"])]
+    if r == 1:
+        return [pick(rnd, ["Expires", "expires"]), pick(rnd, _DATES)]
+    if r == 2:
+        return [pick(rnd, ["Domain", "domain"]), pick(rnd, ["example.com", ".example.com", ""])]
+    if r == 3:
+        return [pick(rnd, ["Max-Age", "max-age"]), pick(rnd, ["0", "3600", "-1"])]
+    if r == 4:
+        return [pick(rnd, ["Secure", "HttpOnly", "secure", "Partitioned"]), None]
+    if r == 5:
+        return ["SameSite", pick(rnd, ["Lax", "Strict", "None"])]
+    return [pick(rnd, ["Comment", "x-ext"]), _cookie_val(_g_text(rnd))]
 
 
-def strategy(ctx):
-    assign = st.one_of(
-        st.tuples(st.just("query"), st.just("assign"), _base_path, _qpairs),
-        st.tuples(st.just("form"), st.just("assign"), _ctype, _old_body, _coding, _qpairs),
-        st.tuples(st.just("cookies"), st.just("assign"), st.lists(st.sampled_from(["a=b", "x=y; z=w", ""]), max_size=2), _cpairs),
-        st.tuples(st.just("setcookies"), st.just("assign"), st.lists(st.sampled_from(["a=b; Path=/", "x=y"]), max_size=2),
-                  st.lists(_setcookie, max_size=3)),
-        st.tuples(st.just("multipart"), st.just("assign"), st.one_of(st.none(), _boundary, _boundary_q), _old_body, _mp_pairs),
-        st.tuples(st.just("path"), st.just("assign"), _base_path, st.lists(_text1, max_size=4).map(lambda l: [c for c in l if c])),
-    )
-    wb = st.one_of(
-        st.tuples(st.just("query"), st.just("writeback"), st.sampled_from(["/p", "/a/b;x", "/"]), _qpairs, st.integers(0, 7),
-                  st.sampled_from(["", "#f"])),
-        st.tuples(st.just("form"), st.just("writeback"), st.sampled_from(["application/x-www-form-urlencoded",
-                                                                         "application/x-www-form-urlencoded; charset=utf-8",
-                                                                         "Application/X-WWW-Form-Urlencoded"]),
-                  _qpairs, st.integers(0, 7), _coding),
-        st.tuples(st.just("cookies"), st.just("writeback"),
-                  st.lists(st.lists(st.tuples(st.text(alphabet="abcXYZ_-.", min_size=1, max_size=4),
-                                              st.text(alphabet="abc019-._~!#$%&'()*+/:<=>?@[]^`{|}", max_size=6)), min_size=1, max_size=3),
-                           min_size=1, max_size=3), st.integers(0, 3)),
-        st.tuples(st.just("setcookies"), st.just("writeback"),
-                  st.lists(st.tuples(st.text(alphabet="abcXYZ_-.", min_size=1, max_size=4),
-                                     st.text(alphabet="abc019-._~!#$%&'()*+/:<=>?@[]^`{|}", max_size=6),
-                                     st.lists(st.sampled_from([["Path", "/"], ["path", "/a/b"], ["Expires", _DATES[0]], ["expires", _DATES[1]],
-                                                               ["Domain", "example.com"], ["Max-Age", "3600"], ["Secure", None],
-                                                               ["HttpOnly", None], ["SameSite", "Lax"], ["Partitioned", None]]), max_size=4)),
-                           min_size=1, max_size=3), st.integers(0, 1)),
-        st.tuples(st.just("multipart"), st.just("writeback"), _boundary,
-                  st.lists(st.tuples(st.sampled_from([b"k", b"field1", b"a b", b"\xc3\xa9"]),
-                                     st.sampled_from([b"", b"v", b"value1", b"two words", b"\x00\xff", b"x--XXy"])), max_size=3)
-                  .map(lambda l: [list(x) for x in l])),
-    )
-    return st.one_of(assign, assign, wb)
+def _g_setcookie(rnd):
+    name = _cookie_name(_g_text(rnd), True)
+    val = None if rnd.random() < 0.25 else _cookie_val(_g_text(rnd))
+    if not name:
+        name = "n" if val in (None, "") else ""
+    return [name, val, [_g_attr(rnd) for _ in range(small(rnd, 4))], rnd.random() < 0.5]
+
+
+def _g_mp_name(rnd):
+    if rnd.random() < 0.5:
+        return pick(rnd, _MP_NAMES)
+    return rbytes(rnd, 1, 6).replace(b'"', b"'").replace(b"\r", b"_").replace(b"\n", b"_")
+
+
+def _g_simple_cookie(rnd):
+    return [text(rnd, "abcXYZ_-.", 1, 4), text(rnd, _COOKIE_OCTETS, 0, 6)]
+
+
+def build(rnd):
+    view = pick(rnd, ["query", "form", "cookies", "setcookies", "multipart", "path"])
+    if rnd.random() < 0.67 or view == "path":
+        if view == "query":
+            return [view, "assign", pick(rnd, _BASE_PATHS), _g_qpairs(rnd)]
+        if view == "form":
+            return [view, "assign", pick(rnd, _CTYPES), pick(rnd, _OLD_BODIES), pick(rnd, _CODINGS), _g_qpairs(rnd)]
+        if view == "cookies":
+            return [view, "assign", [pick(rnd, ["a=b", "x=y; z=w", ""]) for _ in range(rnd.randint(0, 2))], _g_cpairs(rnd)]
+        if view == "setcookies":
+            return [view, "assign", [pick(rnd, ["a=b; Path=/", "x=y"]) for _ in range(rnd.randint(0, 2))],
+                    [_g_setcookie(rnd) for _ in range(small(rnd, 3))]]
+        if view == "multipart":
+            r = rnd.random()
+            boundary = None if r < 0.34 else pick(rnd, _BOUNDARIES) if r < 0.8 else pick(rnd, _BOUNDARIES_Q)
+            return [view, "assign", boundary, pick(rnd, _OLD_BODIES),
+                    [[_g_mp_name(rnd), pick(rnd, _MP_VALS) if rnd.random() < 0.5 else rbytes(rnd, 0, 12)] for _ in range(small(rnd, 4))]]
+        return [view, "assign", pick(rnd, _BASE_PATHS), [c for c in (_g_text(rnd, 1) for _ in range(small(rnd, 4))) if c]]
+    if view == "query":
+        return [view, "writeback", pick(rnd, ["/p", "/a/b;x", "/"]), _g_qpairs(rnd), rnd.randint(0, 7), pick(rnd, ["", "#f"])]
+    if view == "form":
+        return [view, "writeback", pick(rnd, ["application/x-www-form-urlencoded", "application/x-www-form-urlencoded; charset=utf-8",
+                                              "Application/X-WWW-Form-Urlencoded"]), _g_qpairs(rnd), rnd.randint(0, 7), pick(rnd, _CODINGS)]
+    if view == "cookies":
+        return [view, "writeback", [[_g_simple_cookie(rnd) for _ in range(rnd.randint(1, 3))] for _ in range(rnd.randint(1, 3))],
+                rnd.randint(0, 3)]
+    if view == "setcookies":
+        return [view, "writeback", [_g_simple_cookie(rnd) + [[pick(rnd, _WB_ATTRS) for _ in range(small(rnd, 4))]]
+                                    for _ in range(rnd.randint(1, 3))], rnd.randint(0, 1)]
+    return [view, "writeback", pick(rnd, _BOUNDARIES),
+            [[pick(rnd, [b"k", b"field1", b"a b", b"\xc3\xa9"]), pick(rnd, [b"", b"v", b"value1", b"two words", b"\x00\xff", b"x--XXy"])]
+             for _ in range(small(rnd, 3))]]
+
+
+def run(ctx):
+    runner.fast(ctx, build, check_case, ctx.n(QUICK_N, THOROUGH_N))
 
 
 # ------------------------------------------------------------------ reference codecs (independent of mitmproxy/urllib)
